@@ -15,11 +15,12 @@ def init_walk_jobs(tier):
     for ti,m in enumerate(M):
         iss=sorted(set([0,m-1])) if q else list(range(m))
         if q and ti not in (0,1,2,7,11,16): continue
-        for i_s in iss:
-            J.append(Job('init-walk-t%d-s%d'%(ti,i_s),'C15/init_walk.c',defs=['-DTI=%d'%ti,'-DIS=%d'%i_s],unwind=20,unwindset=[('vorbis_encode_compand_setup',None,41)],object_bits=12,checks=['leak'],slice=True,
+        for i_s,mg,dk in [(i,m,k) for i in iss for m in (0,1) for k in (0,1,2,3)]:
+            if q and ((i_s==0)!=(mg==0) or dk!=(1 if i_s==0 else 2)): continue
+            J.append(Job('init-walk-t%d-s%d-%s-f%d'%(ti,i_s,'managed' if mg else 'vbr',dk),'C15/init_walk.c',defs=['-DTI=%d'%ti,'-DIS=%d'%i_s,'-DMG=%d'%mg,'-DDSK=%d'%dk],unwind=260,object_bits=12,checks=['leak'],slice=True,
                 witnesses=['set-up completed'],functions=['vorbis_encode_setup_setting','vorbis_encode_setup_init','vorbis_encode_map_n_res_setup','vorbis_encode_residue_setup','vorbis_encode_floor_setup','vorbis_encode_global_stereo','vorbis_encode_global_psych_setup','vorbis_encode_psyset_setup','vorbis_encode_tonemask_setup','vorbis_encode_compand_setup','vorbis_encode_peak_setup','vorbis_encode_noisebias_setup','book_dup_or_new','setting_to_approx_bitrate','vorbis_info_clear'],
                 models=['real lib/modes/*.h tables','registry free hooks release exactly their argument','get_setup_template contract (tmpl-*)'],tags=['C13'],
-                bounds='template %d of %d, setting interval %d of %d (base_setting any float in [%d,%d) or the clamp value); channels/rate anything the template admits; ctl-settable fields arbitrary in their enforced ranges'%(ti,len(M),i_s,m,i_s,i_s+1),weight=2))
+                bounds='template %d of %d, setting interval %d of %d, fraction case %d of {0,.5,largest float below 1,clamp}, managed=%d; channels/rate anything the template admits; ctl-settable fields arbitrary in their enforced ranges'%(ti,len(M),i_s,m,dk,mg),weight=2))
     return J
 def jobs(tier):
     J=[]
